@@ -86,7 +86,8 @@ type c07op struct {
 	Sigs      []c07sig `json:"sigs,omitempty"`
 	// cv
 	Votes []c07sig `json:"votes,omitempty"`
-	Late  []c07sig `json:"late,omitempty"` // added while the counter sleeps between two polls
+	Late  []c07sig `json:"late,omitempty"`  // added while the counter sleeps between its first and second polling pass
+	Late2 []c07sig `json:"late2,omitempty"` // added between the second and third polling pass
 	Note  string   `json:"note,omitempty"`
 }
 
@@ -835,14 +836,21 @@ func (fx *c07fx) runCv(op c07op, out *c07out) string {
 	timeout := 50 * time.Millisecond
 	var lateLines [][2]string
 	var wg sync.WaitGroup
-	if len(op.Late) > 0 {
-		timeout = 1200 * time.Millisecond
+	if len(op.Late)+len(op.Late2) > 0 {
+		// the real loop polls at 0, 500, 1000, ... ms: wave 1 lands before the second pass, wave 2 before the third
+		timeout = 2200 * time.Millisecond
 		wg.Add(1)
 		go func() {
 			defer wg.Done()
 			time.Sleep(150 * time.Millisecond)
 			for _, s := range op.Late {
 				lateLines = append(lateLines, add(s))
+			}
+			if len(op.Late2) > 0 {
+				time.Sleep(500 * time.Millisecond)
+				for _, s := range op.Late2 {
+					lateLines = append(lateLines, add(s))
+				}
 			}
 		}()
 	}
@@ -877,6 +885,9 @@ func (fx *c07fx) runCv(op c07op, out *c07out) string {
 	if err != nil || cert == nil {
 		out.line(opl+"none", "none need="+needS)
 		out.hit("cv:none")
+		if len(op.Late)+len(op.Late2) > 0 {
+			out.hit("cv:none-despite-late-votes")
+		}
 		return ""
 	}
 	idx := make([]string, 0, len(cert.Votes))
@@ -891,8 +902,11 @@ func (fx *c07fx) runCv(op c07op, out *c07out) string {
 	}
 	out.line(opl+"found/"+strings.Join(idx, ","), "found need="+needS+" cert=possible")
 	out.hit("cv:found")
-	if len(op.Late) > 0 {
+	if len(op.Late)+len(op.Late2) > 0 {
 		out.hit("cv:found-after-late-votes")
+	}
+	if len(op.Late2) > 0 {
+		out.hit("cv:found-with-votes-over-three-passes")
 	}
 	// ---- oracle 1: ground truth — the emitted certificate consists of >= required genuine votes of distinct
 	// eligible members for one hash, this parent, this round, this step
@@ -1056,8 +1070,8 @@ func c07shrink(cs c07case) c07case {
 			}
 		}
 		for i := range cs.Ops {
-			for _, field := range []int{0, 1, 2} {
-				get := func(o *c07op) *[]c07sig { return [](*[]c07sig){&o.Sigs, &o.Votes, &o.Late}[field] }
+			for _, field := range []int{0, 1, 2, 3} {
+				get := func(o *c07op) *[]c07sig { return [](*[]c07sig){&o.Sigs, &o.Votes, &o.Late, &o.Late2}[field] }
 				for j := 0; j < len(*get(&cs.Ops[i])); j++ {
 					t := cs
 					t.Ops = append([]c07op{}, cs.Ops...)
@@ -1515,7 +1529,104 @@ func c07genExhaustive(r *rand.Rand) c07case {
 	return cs
 }
 
+// votes arriving over several polling passes of the real countVotes, on committees with non-approved members
+// (discriminated identities, delegators collapsing into a pool): the requirement must stay threshold - subtrahend over
+// all passes, so eff-1 votes never yield a certificate and the certificate found in a later pass holds the full quorum
+func c07genPasses(r *rand.Rand) c07case {
+	var cs c07case
+	var fx *c07fx
+	for try := 0; try < 8; try++ {
+		cs = c07case{God: 0, Seed: r.Int63(), Height: uint64(5 + r.Intn(1000)), LiveSame: true}
+		n := 4 + r.Intn(5)
+		if r.Intn(2) == 0 {
+			n = 9 + r.Intn(22)
+		}
+		for i := 1; i <= n; i++ {
+			cs.Ids = append(cs.Ids, c07ident{K: i, Del: -1, On: true, Val: true, Disc: i > 2 && r.Intn(100) < 35})
+		}
+		cs.Ids[2+r.Intn(n-2)].Disc = true
+		if r.Intn(2) == 0 { // a pool: its delegators are drawn as validators but vote as one address
+			cs.Ids = append(cs.Ids, c07ident{K: 600, Del: -1, On: true, Val: r.Intn(2) == 0})
+			for j, k := 0, 2+r.Intn(3); j < k; j++ {
+				cs.Ids = append(cs.Ids, c07ident{K: 601 + j, Del: 600, Val: true})
+			}
+		}
+		var err error
+		fx, err = c07newFx(cs)
+		if err != nil {
+			return cs
+		}
+		sv := fx.vc.GetOnlineValidators(fx.hdr[hPrev].Seed(), cs.Height, 1, fx.chain.GetCommitteeSize(fx.vc, false))
+		if sv != nil && sv.VotesCountSubtrahend(fx.cfg.Consensus.AgreementThreshold) > 0 {
+			break
+		}
+	}
+	cs.Ops = append(cs.Ops, c07op{Kind: "com", Step: 1, Limit: -1})
+	steps := []uint8{1, 2, types.ReductionOne, types.Final}
+	r.Shuffle(len(steps), func(i, j int) { steps[i], steps[j] = steps[j], steps[i] })
+	for _, step := range steps[:2] {
+		need, approved, other := fx.eligibility(fx.hdr[hPrev], cs.Height, step)
+		r.Shuffle(len(approved), func(i, j int) { approved[i], approved[j] = approved[j], approved[i] })
+		eff := need
+		if eff < 1 {
+			eff = 1
+		}
+		total := eff + []int{-1, 0, 0, 0, 1}[r.Intn(5)]
+		if total > len(approved) {
+			total = len(approved)
+		}
+		if total < 0 {
+			total = 0
+		}
+		op := c07op{Kind: "cv", Step: step, Note: fmt.Sprintf("passes total=%d need=%d", total, need)}
+		blk := []int{hB0, hB1, hB2}[r.Intn(3)]
+		var vs []c07sig
+		for _, k := range approved[:total] {
+			vs = append(vs, fx.genuine(k, step, blk, r))
+		}
+		early := 0
+		if m := total; m > 0 {
+			if m > eff-1 {
+				m = eff - 1
+			}
+			if m > 0 {
+				early = 1 + r.Intn(m)
+			}
+			if r.Intn(6) == 0 {
+				early = 0 // nothing known when the counter starts
+			}
+		}
+		rest := vs[early:]
+		op.Votes = append([]c07sig{}, vs[:early]...)
+		if len(rest) > 0 {
+			w1 := len(rest)
+			if len(rest) > 1 && r.Intn(10) < 6 {
+				w1 = 1 + r.Intn(len(rest)-1)
+			}
+			op.Late = append([]c07sig{}, rest[:w1]...)
+			op.Late2 = append([]c07sig{}, rest[w1:]...)
+		}
+		if len(other) > 0 && r.Intn(2) == 0 { // a non-eligible member's vote in a later pass must not count
+			s := fx.genuine(other[r.Intn(len(other))], step, blk, r)
+			if r.Intn(2) == 0 {
+				op.Late = append(op.Late, s)
+			} else {
+				op.Late2 = append(op.Late2, s)
+			}
+		}
+		if len(op.Late)+len(op.Late2) == 0 && len(op.Votes) > 0 { // keep at least one vote for a later pass
+			op.Late = append(op.Late, op.Votes[len(op.Votes)-1])
+			op.Votes = op.Votes[:len(op.Votes)-1]
+		}
+		cs.Ops = append(cs.Ops, op)
+	}
+	return cs
+}
+
 func c07gen(r *rand.Rand, thorough bool, lateBudget *int32) c07case {
+	if *lateBudget == 2 {
+		return c07genPasses(r)
+	}
 	if r.Intn(40) == 0 {
 		return c07genExhaustive(r)
 	}
@@ -1643,7 +1754,7 @@ func init() {
 			return nil
 		}
 		thorough := c.Tier == "thorough"
-		c.Rep.Rule = "registries (0..400 identities: god-only, <=8 switch table, pools with owners inside/outside the registry, discrimination none/some/heavy/all) on a real identity tree + ValidatorsCache passed as the `validatorsCache` ARGUMENT, while the chain object's own live appState cache is the same set (25%), a fresh node's (25%) or a set of another size from every threshold class (50%); per registry: committee draws (steps 1..149, 253-255, explicit limits incl. n-1, n, n+1), certificates built from real secp256k1 signatures with exactly need-1 / need / need+1 distinct eligible voters plus operators (duplicates, same voter other flags, outsiders, non-eligible members, other round/step/parent/hash signed, flag mismatch, 5 byte-level forgeries, certificate-level other round/hash/step, other parent/block context, both sync paths), vote sets through the real AddVote + countVotes (equivocation, stale/future rounds, late votes) whose certificates go back through ValidateBlockCert; 1 case in 40: registry of <= 7 identities with EVERY subset of (eligible voters + a non-eligible member + an outsider) as a certificate; plus the table of the real committee-size / threshold / subtrahend functions over cnt <= N for the four consensus versions; distinct = distinct (registry, op); non-trivial = certificate with at least one signature or required <= 0"
+		c.Rep.Rule = "registries (0..400 identities: god-only, <=8 switch table, pools with owners inside/outside the registry, discrimination none/some/heavy/all) on a real identity tree + ValidatorsCache passed as the `validatorsCache` ARGUMENT, while the chain object's own live appState cache is the same set (25%), a fresh node's (25%) or a set of another size from every threshold class (50%); per registry: committee draws (steps 1..149, 253-255, explicit limits incl. n-1, n, n+1), certificates built from real secp256k1 signatures with exactly need-1 / need / need+1 distinct eligible voters plus operators (duplicates, same voter other flags, outsiders, non-eligible members, other round/step/parent/hash signed, flag mismatch, 5 byte-level forgeries, certificate-level other round/hash/step, other parent/block context, both sync paths), vote sets through the real AddVote + countVotes (equivocation, stale/future rounds, late votes; dedicated cases with discriminated/pooled committee members whose need-1 / need / need+1 eligible votes arrive over up to three 500 ms polling passes of the real loop) whose certificates go back through ValidateBlockCert; 1 case in 40: registry of <= 7 identities with EVERY subset of (eligible voters + a non-eligible member + an outsider) as a certificate; plus the table of the real committee-size / threshold / subtrahend functions over cnt <= N for the four consensus versions; distinct = distinct (registry, op); non-trivial = certificate with at least one signature or required <= 0"
 		maxCnt := 200000
 		c07table(c, maxCnt, thorough)
 		n := c.Scale(260, 12000)
@@ -1660,6 +1771,11 @@ func init() {
 				lateBudget--
 			}
 		}
+		// dedicated "votes over several polling passes, committee with non-approved members" cases, spread evenly
+		npass := c.Scale(36, 600)
+		for j := 0; j < npass; j++ {
+			lates[(j*n)/npass] = 2
+		}
 		type res struct {
 			cs   c07case
 			out  *c07out
@@ -1668,9 +1784,9 @@ func init() {
 		results := make([]res, n)
 		var wg sync.WaitGroup
 		jobs := make(chan int, n)
-		workers := runtime.NumCPU()
-		if workers > 12 {
-			workers = 12
+		workers := 2 * runtime.NumCPU() // the polling-pass cases sleep in the real 500 ms loop
+		if workers > 32 {
+			workers = 32
 		}
 		for w := 0; w < workers; w++ {
 			wg.Add(1)
